@@ -216,6 +216,14 @@ def eval_dyad_adverb_iterate(f, a, b):
     return b
 
 
+def _has_zero_divisor(a):
+    """a%b is undefined for b=0 while divide.reduce would answer inf/nan: fold with the verb then"""
+    try:
+        return bool((bknp.asarray(a[1:]) == 0).any())
+    except Exception:
+        return False
+
+
 def eval_adverb_over(f, a, op, backend):
     """
         f/a                                                       [Over]
@@ -244,11 +252,11 @@ def eval_adverb_over(f, a, op, backend):
             return np_backend.subtract.reduce(a)
         elif safe_eq(op.a, '*') and hasattr(np_backend.multiply,'reduce'):
             return np_backend.multiply.reduce(a)
-        elif safe_eq(op.a, '%') and hasattr(np_backend.divide,'reduce'):
+        elif safe_eq(op.a, '%') and hasattr(np_backend.divide,'reduce') and not _has_zero_divisor(a):
             return np_backend.divide.reduce(a)
-        elif safe_eq(op.a, '&') and a.ndim == 1:
+        elif safe_eq(op.a, '&') and a.ndim == 1 and a.dtype != 'O':
             return np_backend.min(a)
-        elif safe_eq(op.a, '|') and a.ndim == 1:
+        elif safe_eq(op.a, '|') and a.ndim == 1 and a.dtype != 'O':
             return np_backend.max(a)
         elif safe_eq(op.a, ',') and np_backend.isarray(a) and a.dtype != 'O':
             return a if a.ndim == 1 else np_backend.concatenate(a, axis=0)
